@@ -80,6 +80,13 @@ def gen(rng, tier):
                 for local, term, h in ((True, "fy", True), (False, rng.choice(["fx", "fy"]), False)):
                     s.loads.append({"kind": "c", "term": term, "local": local, "bar": b["id"], "t": tt, "v": Fr(rng.choice([-3000, 2000, 700]))})
                     half.append(h)
+        if g % 3 == 2:
+            b = ([b for b in s.bars if b["l1"][2] or b["l2"][2]] or s.bars)[0]
+            t0, t1 = Fr(rng.choice(["0.2", "0.1"])), Fr(rng.choice(["0.6", "0.45"]))
+            if all(abs(tt - x) > Fr("0.002") for tt in (t0, t1) for l in s.loads if l["bar"] == b["id"] for x in ([l["t"]] if l["kind"] == "c" else [l["t0"], l["t1"]])):
+                for term, h in (("fx", True), ("fy", False)):
+                    s.loads.append({"kind": "d", "term": term, "local": True, "bar": b["id"], "t0": t0, "v0": Fr(rng.choice([-4, 3])), "t1": t1, "v1": Fr(rng.choice([-5, 2]))})
+                    half.append(h)
         group = [("base", s, BASE_ERR, None)]
         for k in ks:
             group.append(("scaled", scaled(s, k), BASE_ERR * abs(k), k))
